@@ -196,14 +196,14 @@ instance (H : Hier) (p : Name) : Decidable (NoLoopAt H p) := by
 def exOld : Comp :=
   { sigs := [("in0", "in"), ("out0", "out"), ("w", "wire")], mports := [("ping", "callee")],
     blks := [⟨"b", 2, [([], "in0"), ([], "w")], [([], "out0")], []⟩],
-    mcs := [(.meth ([], "ping"), .blk "b", false)], consts := [(([], "w"), "5")] }
+    mcs := [(.meth ([], "ping"), .blk ([], "b"), false)], consts := [(([], "w"), "5")] }
 def exNew : Comp :=
   { sigs := [("in0", "in"), ("out0", "out")], blks := [⟨"x", 0, [([], "in0")], [([], "out0")], []⟩] }
 /-- parent: connects the child's input, reads its output in a block, constrains its output -/
 def exTop : Comp :=
   { sigs := [("in0", "in"), ("out0", "out")],
     blks := [⟨"up", 0, [(["c"], "out0")], [([], "out0")], []⟩],
-    rdu := [((["c"], "out0"), true, "up")], conns := [((["c"], "in0"), ([], "in0"))] }
+    rdu := [((["c"], "out0"), true, ([], "up"))], conns := [((["c"], "in0"), ([], "in0"))] }
 def exH : Hier := [([], exTop), (["c"], exOld)]
 def exN : Hier := [([], exNew)]
 
